@@ -59,7 +59,11 @@ impl EnumBasedValue {
     #[must_use]
     #[inline]
     pub(crate) const fn float64(value: f64) -> Self {
-        Self::Float64(value)
+        if value.is_nan() {
+            Self::Float64(f64::NAN)
+        } else {
+            Self::Float64(value)
+        }
     }
 
     /// Returns a `InnerValue` from a 32-bits integer.
